@@ -55,8 +55,8 @@ PROPS = {
         explanation='the local steps that keep child lists and parent links in agreement: XmlElement::insert_by_id, XmlDocument::insert_by_id (with its nested helper add_or_insert) and XmlAttribute::insert_by_id either refuse and change nothing (child list, parent links) or leave the value listed exactly once under this parent with its parent link pointing here; XmlElement::delete_by_id removes exactly that child and clears its parent link, and changes nothing for an unknown id; the trait defaults append / insert_before leave the id of the inserted node resolving to the very handle the child list now owns (Context.id_map), which is what parent_node() of its children goes through; Context::node resolves a registered id for as long as the item itself is alive (unit c12_idmap, over uninterpreted ownership predicates); XmlItem::remove_from_parent (unit c12_remove, over an explicit world of parent links and child lists) takes a node that its live parent lists out of that list and clears its parent link, touches no other list, and changes nothing for a node without a parent; dom XmlNode::previous_sibling_child / next_sibling_child (unit c12_siblings) answer the entry before / after the node in the parent\'s child list, by identity, for every child list of pairwise different items, whatever the order keys are',
     ),
     'C10': dict(
-        standin_ops=['ctx.script', 'info.namespace_names', 'xpath.query.names', 'xpath.corpus_names'],
-        quick_grids=['xpath.corpus_names'],
+        standin_ops=['ctx.script', 'info.namespace_names', 'info.ns_corpus', 'xpath.query.names', 'xpath.corpus_names'],
+        quick_grids=['xpath.corpus_names', 'info.ns_corpus'],
         verus_units=['c10_ns', 'c10_scope'],
         level='proof',
         trusted_base=TRUSTED_VERUS,
